@@ -218,6 +218,34 @@ def _model(case, rec, rng):
         eb, _ = model(Xa[1:].copy())
         rec.check("model_separability", np.max(np.abs(ra - 0.5 * (ea + eb))) / sc, TOL_M,
                   mechanism="MappedXC[SEP,%s]:separability" % mul)
+    # the same relations for a libxc-backed model (MappedXC2) incl. same-spin / opposite-spin baselines
+    if mode != "POL" or True:
+        from ciderpress.dft.plans import SemilocalPlan, get_rho_tuple_with_grad_cross
+        mul2, add2 = [("GGA_X_PBE", None), ("GGA_C_PBE", "GGA_C_PBE"), ("OS_GGA_C_PBE", "SS_GGA_C_PBE"), ("MGGA_C_R2SCAN", "LDA_C_PW_MOD"),
+                      ("SS_GGA_C_PBE", "OS_GGA_C_PBE")][case["idx"] % 5]
+        if mode == "SEP":
+            mul2, add2 = "GGA_X_PBE", None
+        cfg2 = dict(family=str(rng.choice(["sl-npa", "sl-nst"])), mode=mode, evaluator=ev, model="xc2", mul_base=mul2, add_base=add2)
+        m2 = gen.build_model(cfg2, rng)
+        rho2 = gen.pointwise_rho(rng, n, nspin=2, lo=1e-2, hi=5.0)
+        fs = m2.settings
+
+        def call(rd):
+            X = SemilocalPlan(fs.sl_settings, rd.shape[0]).get_feat(rd)
+            XN = fs.normalizers.get_normalized_feature_vector(X)
+            rtup = get_rho_tuple_with_grad_cross(rd, is_mgga=True)
+            return m2(XN, rtup)
+        r_ab, d_ab, v_ab = call(rho2)
+        r_ba, d_ba, v_ba = call(np.ascontiguousarray(rho2[::-1]))
+        sc2 = max(float(np.max(np.abs(r_ab))), 1e-9)
+        rec.check("model2_swap_energy", float(np.max(np.abs(r_ab - r_ba))) / sc2, TOL_M, mechanism="MappedXC2[%s,%s]:swap:energy" % (mode, mul2))
+        rec.check("model2_swap_deriv", float(np.max(np.abs(d_ab - d_ba[::-1]))) / max(float(np.max(np.abs(d_ab))), 1e-9), TOL_M,
+                  mechanism="MappedXC2[%s,%s]:swap:derivative" % (mode, mul2))
+        rec.check("model2_swap_vrho", float(np.max(np.abs(v_ab[0] - v_ba[0][::-1]))) / max(float(np.max(np.abs(v_ab[0]))), 1e-9), TOL_M,
+                  mechanism="MappedXC2[%s,%s]:swap:vrho" % (mode, mul2))
+        rec.check("model2_swap_vsigma", float(np.max(np.abs(v_ab[1] - v_ba[1][::-1]))) / max(float(np.max(np.abs(v_ab[1]))), 1e-9), TOL_M,
+                  mechanism="MappedXC2[%s,%s]:swap:vsigma" % (mode, mul2))
+        rec.tag("model2_baselines", "%s/%s" % (mul2, add2))
     if np.max(np.abs(ra)) > 1e-8:
         rec.nontrivial("%s|%s|%s|%s" % (fam, mode, ev, mul))
     rec.set_sample({"cfg": cfg, "max_energy_density": float(np.max(np.abs(ra)))})
@@ -289,4 +317,34 @@ def _layer(case, rec, rng):
         rec.check("layer_baseline[%s]" % name, relerr(m1, m2), TOL, mechanism="%s:nspin" % name)
         rec.check("layer_baseline_deriv[%s]" % name, relerr(d1[0], d2[0] + d2[1]), TOL, mechanism="%s:nspin-derivative" % name)
         rec.tag("baseline", name)
+    # libxc-backed baselines (incl. the same-spin / opposite-spin splits): channel-swap symmetry and polarised ==
+    # unpolarised for equal channels, on genuinely spin-polarised pointwise data
+    from ciderpress.dft.plans import get_rho_tuple_with_grad_cross
+    rho2 = gen.pointwise_rho(rng, n, nspin=2, lo=1e-3, hi=10.0)
+    rt = get_rho_tuple_with_grad_cross(rho2, is_mgga=True)
+    rts = get_rho_tuple_with_grad_cross(np.ascontiguousarray(rho2[::-1]), is_mgga=True)
+    half = np.stack([rho2[0] / 2 + rho2[1] / 2] * 2)
+    rth = get_rho_tuple_with_grad_cross(half, is_mgga=True)
+    rt1 = get_rho_tuple_with_grad_cross((2 * half[:1]), is_mgga=True)
+    for code in ("LDA_X", "LDA_C_PW_MOD", "GGA_X_PBE", "GGA_C_PBE", "GGA_C_PBE_SOL", "MGGA_X_R2SCAN", "MGGA_C_R2SCAN",
+                 "SS_GGA_C_PBE", "OS_GGA_C_PBE"):
+        a = bl.get_libxc_baseline(code, tuple(x.copy(order="F") for x in rt))
+        b = bl.get_libxc_baseline(code, tuple(x.copy(order="F") for x in rts))
+        esc = max(float(np.max(np.abs(a[0]))), 1e-12)
+        rec.check("layer_libxc_swap_energy[%s]" % code, float(np.max(np.abs(a[0] - b[0]))) / esc, TOL_L,
+                  mechanism="get_libxc_baseline[%s]:spin-swap:energy" % code)
+        vsc = max(float(np.max(np.abs(a[1]))), 1e-12)
+        rec.check("layer_libxc_swap_vrho[%s]" % code, float(np.max(np.abs(a[1] - b[1][::-1]))) / vsc, TOL_L,
+                  mechanism="get_libxc_baseline[%s]:spin-swap:vrho" % code)
+        if len(a) > 2:
+            ssc = max(float(np.max(np.abs(a[2]))), 1e-12)
+            rec.check("layer_libxc_swap_vsigma[%s]" % code, float(np.max(np.abs(a[2] - b[2][::-1]))) / ssc, TOL_L,
+                      mechanism="get_libxc_baseline[%s]:spin-swap:vsigma" % code)
+        # equal channels through the polarised path vs the unpolarised path
+        c2 = bl.get_libxc_baseline(code, tuple(x.copy(order="F") for x in rth))
+        c1 = bl.get_libxc_baseline(code, tuple(x.copy(order="F") for x in rt1))
+        rec.check("layer_libxc_pol_vs_unpol[%s]" % code, float(np.max(np.abs(c2[0] - c1[0]))) / max(float(np.max(np.abs(c1[0]))), 1e-12), TOL_L,
+                  mechanism="get_libxc_baseline[%s]:polarised!=unpolarised" % code)
+        rec.tag("libxc_baseline", code)
+    rec.nontrivial("libxc-baselines")
     rec.set_sample({"a0": a0, "grad_mul": gm, "tau_mul": tm})
